@@ -37,6 +37,14 @@ ASSUMPTIONS = [
     "Vol.4 order state change matrices; both directions are FIFO, the client swallows an exception raised while "
     "processing a report (the report is consumed)",
     "str(int) of the ClOrdID counter is plain decimal (CPython's 4300-digit limit is out of reach)",
+    "MAGNITUDE: the single 1/8 grid is kept up to its limit (grid integers below 2^49, values below 2^46 ≈ 7e13, where "
+    "one tick is a relative change of 2e-15): the model's integers are unbounded, the generators include prices 2.5e10 .. 7e13 "
+    "with one-tick changes; larger magnitudes (where floats leave the grid) are outside the model and the harness",
+    "HISTORY LENGTH: theorems hold for every counter value (decimal rendering proved injective for all n); the harness drives "
+    "chains of up to 103 (thorough: 1003) requests with rejects around 9/10, 99/100 (999/1000)",
+    "LATE / DUPLICATED reports are outside the closed-system theorems (the reference exchange never sends them); they are "
+    "covered by the open-system theorems (finished_stays_finished, status_is_enum, one_outstanding, can_implies_builds hold for "
+    "ANY report sequence) and by the late/duplicate stream of the correspondence",
 ]
 MODELLED_NOT_VERIFIED = [
     "C17: FIXNewOrderSingle methods, RE_CLORD_ROOT (backtracking model of (.+)--(\\d+)\\Z with re.DOTALL, \\d = the "
@@ -132,16 +140,21 @@ def action_line(a: list) -> str:
     return "oo.act " + " ".join(str(x) for x in a)
 
 
+DEFAULT_CFG = ["TICK", "1", "2", "ACC"]   # ticker, side, ord_type, account
+
+
 def init_line(case: dict) -> str:
-    return "oo.init %s %d %d %s %s %s %s" % (u(case["root"]), case["price"], case["qty"], u("TICK"), u("1"), u("2"), u("ACC"))
+    t, sd, ot, ac = case.get("cfg", DEFAULT_CFG)
+    return "oo.init %s %d %d %s %s %s %s" % (u(case["root"]), case["price"], case["qty"], u(t), u(sd), u(ot), u(ac))
 
 
 # ---------------------------------------------------------------------------------------------
 # running a case on the implementation
 # ---------------------------------------------------------------------------------------------
 def make_link(case):
-    return R.Link(case["root"], case["price"], case["qty"], ptype=case.get("ptype", "float"),
-                  qtype=case.get("qtype", "float"), argint=case.get("argint", False))
+    t, sd, ot, ac = case.get("cfg", DEFAULT_CFG)
+    return R.Link(case["root"], case["price"], case["qty"], t, sd, ot, ac, ptype=case.get("ptype", "float"),
+                  qtype=case.get("qtype", "float"), argint=case.get("argint", False), enums=case.get("enums", False))
 
 
 def new_link(case):
@@ -181,12 +194,30 @@ ROOTS_ODD = ["abc--7", "a--1--2", "a\nb", "a--1\nb", "x--٣", "q\n", "\n"]
 DECISIONS = ["accept", "reject", "pend"]
 
 
+# MAGNITUDE: grid numbers up to the 2^49 limit of the grid assumption (values up to 2^46 ≈ 7e13), where one tick
+# (1/8) is a relative change far below 1e-9
+BIG_PRICES = [8 * 25_000_000_000, 8 * 10**10 + 1, 8 * 10**12 + 3, 2**49 - 9, 2**48 + 1, 8 * 999_999_999_999 + 7]
+BIG_QTYS = [8 * 10**9, 8 * 10**12, 2**49 - 16, 2**47 + 5]
+TICKERS = ["TICK", "EUR/USD", "ÖL-1", "A B", "7"]
+SIDES = ["1", "2", "5"]
+ORD_TYPES = ["2", "1", "4"]
+ACCOUNTS = ["ACC", "000000", "dépôt"]
+
+
+def rand_config(rng):
+    """CONFIGURATION: Python types of price / qty / replace arguments, enum members or plain strings for side and
+    order type, instrument / account text"""
+    return {"ptype": rng.choice(["float", "int"]), "qtype": rng.choice(["float", "int"]), "argint": rng.random() < 0.5,
+            "enums": rng.random() < 0.5,
+            "cfg": [rng.choice(TICKERS), rng.choice(SIDES), rng.choice(ORD_TYPES), rng.choice(ACCOUNTS)]}
+
+
 def rand_case(rng, maxlen=25, odd_roots=True):
     root = rng.choice(ROOTS_GOOD if (not odd_roots or rng.random() < 0.85) else ROOTS_ODD)
-    price = rng.choice([80, 80, 81, 1, 100, 800001, 0, -8])
-    qty = rng.choice([40, 40, 8, 1, 100, 13, 0])
-    case = {"root": root, "price": price, "qty": qty, "style": rng.randrange(3), "actions": [],
-            "ptype": rng.choice(["float", "int"]), "qtype": rng.choice(["float", "int"]), "argint": rng.random() < 0.5}
+    price = rng.choice([80, 80, 81, 1, 100, 800001, 0, -8] + BIG_PRICES)
+    qty = rng.choice([40, 40, 8, 1, 100, 13, 0] + BIG_QTYS)
+    case = {"root": root, "price": price, "qty": qty, "style": rng.randrange(3), "actions": []}
+    case.update(rand_config(rng))
     L = make_link(case)
     n = rng.randint(1, maxlen)
     for i in range(n):
@@ -239,7 +270,7 @@ def rand_replace(rng, L):
     q0 = o["qty"] if isinstance(o["qty"], int) else 40
     cum = o["cum"] if isinstance(o["cum"], int) else 0
     p = rng.choice([None, None, p0, p0 + 1, p0 - 1, p0 + 4, 96, 0, -8])
-    q = rng.choice([None, None, q0, q0 + 8, max(q0 - 3, 1), cum, max(cum - 1, 1), max(cum - 8, 1), cum + 1,
+    q = rng.choice([None, None, q0, q0 + 8, q0 + 1, max(q0 - 1, 1), max(q0 - 3, 1), cum, max(cum - 1, 1), max(cum - 8, 1), cum + 1,
                     max(q0 // 2, 1), 8 * max((cum + 7) // 8 - 1, 1), 0, -8])
     return ["cReplace", p, q]
 
@@ -272,9 +303,9 @@ def rand_report(rng, L):
 
 def rand_open_case(rng, maxlen=20):
     """open system: client calls and ARBITRARY reports (mostly well-formed, some malformed) fed straight in"""
-    case = {"root": rng.choice(ROOTS_GOOD + ROOTS_ODD), "price": rng.choice([80, 81, 1]), "qty": rng.choice([40, 8]),
-            "style": rng.randrange(3), "actions": [],
-            "ptype": rng.choice(["float", "int"]), "qtype": rng.choice(["float", "int"]), "argint": rng.random() < 0.5}
+    case = {"root": rng.choice(ROOTS_GOOD + ROOTS_ODD), "price": rng.choice([80, 81, 1] + BIG_PRICES[:2]), "qty": rng.choice([40, 8]),
+            "style": rng.randrange(3), "actions": []}
+    case.update(rand_config(rng))
     L = make_link(case)
     for i in range(rng.randint(1, maxlen)):
         r = rng.random()
@@ -293,6 +324,116 @@ def rand_open_case(rng, maxlen=20):
     return case
 
 
+# HISTORY LENGTH: long request chains, rejects at every position around the digit-count boundaries of the counter
+CHAIN_ROOTS = ["DESK7-ORD", "o", "x--y", "ord-", "R9", "1", "ab\ncd"]
+
+
+def chain_case(root, n_requests, rejects, kinds=None, pends=(), price=80, qty=800, cfg=None):
+    """new + requests with counters 2..n_requests; request i is rejected when i in rejects, acknowledged as pending
+    first when i in pends; rejected requests are cancels or replaces (kinds[i]), accepted ones are one-tick re-prices"""
+    acts = [["cNew"], ["xRecv", "accept"], ["cRecv"]]
+    cur = price
+    for i in range(2, n_requests + 1):
+        rej = i in rejects
+        k = (kinds or {}).get(i, "G")
+        if k == "F" and rej:
+            acts.append(["cCancel"])
+        else:
+            new = price + 1 if cur == price else price
+            acts.append(["cReplace", new, None])
+            if not rej:
+                cur = new
+        if i in pends:
+            acts += [["xRecv", "pend"], ["cRecv"], ["xDecide", "reject" if rej else "accept"], ["cRecv"]]
+        else:
+            acts += [["xRecv", "reject" if rej else "accept"], ["cRecv"]]
+    c = {"root": root, "price": price, "qty": qty, "style": 0, "actions": acts}
+    c.update(cfg or {})
+    return c
+
+
+def chain_cases(rng, tier):
+    out = []
+    # every reject position 2..13 (single and double), several roots: crosses 9 -> 10
+    for root in CHAIN_ROOTS[:4] if tier == "quick" else CHAIN_ROOTS:
+        for r in range(2, 14):
+            kinds = {r: rng.choice(["F", "G"]), r + 1: rng.choice(["F", "G"])}
+            out.append(chain_case(root, r + 2, {r}, kinds, pends={r} if rng.random() < 0.3 else (), cfg=rand_config(rng)))
+            if r % 3 == 0:
+                out.append(chain_case(root, r + 3, {r, r + 1}, kinds, cfg=rand_config(rng)))
+    # 99 -> 100 (and 999 -> 1000 in the thorough tier)
+    for r in (98, 99, 100, 101):
+        out.append(chain_case(rng.choice(CHAIN_ROOTS), r + 2, {r}, {r: rng.choice(["F", "G"])}, cfg=rand_config(rng)))
+    out.append(chain_case("DESK7-ORD", 103, {9, 10, 11, 99, 100, 101}, {}, price=BIG_PRICES[0], cfg=rand_config(rng)))
+    if tier == "thorough":
+        for r in (999, 1000, 1001):
+            out.append(chain_case(rng.choice(CHAIN_ROOTS), r + 2, {r}, {r: "F"}))
+    return out
+
+
+# LATE / DUPLICATED reports: scripts that finish the order (or not), then reports the reference exchange never sends
+FINISH_SCRIPTS = {
+    "cancel-confirmed": [["cNew"], ["xRecv", "accept"], ["cRecv"], ["cCancel"], ["xRecv", "accept"], ["cRecv"]],
+    "cancel-pended-confirmed": [["cNew"], ["xRecv", "accept"], ["cRecv"], ["xFill", 8, 80], ["cRecv"], ["cCancel"], ["xRecv", "pend"],
+                                ["cRecv"], ["xDecide", "accept"], ["cRecv"]],
+    "filled": [["cNew"], ["xRecv", "accept"], ["cRecv"], ["xFill", 40, 80], ["cRecv"]],
+    "filled-while-cancel-in-flight": [["cNew"], ["xRecv", "accept"], ["cRecv"], ["cCancel"], ["xFill", 40, 80], ["cRecv"],
+                                      ["xRecv", "accept"], ["cRecv"]],
+    "replaced-to-filled": [["cNew"], ["xRecv", "accept"], ["cRecv"], ["xFill", 16, 80], ["cRecv"], ["cReplace", None, 8],
+                           ["xRecv", "accept"], ["cRecv"]],
+    "expired": [["cNew"], ["xRecv", "accept"], ["cRecv"], ["xExpire"], ["cRecv"]],
+    "rejected-new": [["cNew"], ["xRecv", "reject"], ["cRecv"]],
+    "live-after-replace": [["cNew"], ["xRecv", "accept"], ["cRecv"], ["cReplace", 88, None], ["xRecv", "accept"], ["cRecv"]],
+    "pending-cancel": [["cNew"], ["xRecv", "accept"], ["cRecv"], ["cCancel"], ["xRecv", "pend"], ["cRecv"]],
+}
+
+
+def late_cases(rng, tier):
+    """after each script: a duplicate of every report seen so far, and late cancel rejects / execution reports with
+    EVERY OrdStatus, answering the cancel or the replace, under the current and the previous ClOrdID"""
+    out = []
+    statuses = STATUS_POOL
+    for name, script in FINISH_SCRIPTS.items():
+        base = {"root": "ord", "price": 80, "qty": 40, "style": 0, "actions": list(script)}
+        L = make_link(base)
+        seen = []
+        for a in script:
+            res = L.step(a)
+            if res[0] == "emit":
+                seen += [dict([["35", r[0]]] + r[1:]) for r in res[1]]
+        o = L.order
+        ids = [o.clord_id, o.orig_clord_id or o.clord_id]
+        for d in seen:  # duplicates, singly and twice
+            out.append(dict(base, name="dup/" + name, actions=script + [["feed", d]]))
+            out.append(dict(base, name="dup2/" + name, actions=script + [["feed", d], ["feed", d]]))
+        for st in statuses:
+            for resp in ("1", "2"):
+                rej = {"35": "9", "11": ids[0], "41": ids[1], "37": "EX1", "39": st, "434": resp}
+                out.append(dict(base, name="late-reject/" + name, actions=script + [["feed", rej]]))
+            for ex in ("F", "5", "4", "0") if tier == "thorough" else ("F", "5"):
+                rep = {"35": "8", "11": rng.choice(ids), "41": None, "37": "EX1", "150": ex, "39": st, "14": 8, "151": 8, "6": 80,
+                       "44": 81, "38": 48}
+                out.append(dict(base, name="late-exec/" + name, actions=script + [["feed", rep], ["cCancel"]]))
+    return out
+
+
+def burst_cases(rng, n):
+    """SIZE: many reports in flight before the client reads any (fills of one tick, suspend / resume pairs)"""
+    out = []
+    for _ in range(n):
+        k = rng.randint(20, 60)
+        acts = [["cNew"], ["xRecv", "accept"]]
+        for _ in range(k):
+            acts.append(rng.choice([["xFill", 1, 80], ["xFill", 3, 81], ["xSuspend"], ["xResume"]]))
+        acts.append(rng.choice([["cRecv"], ["cRecv"], ["xExpire"]]))
+        acts += [["cRecv"]] * (k + 2)
+        acts += [["cReplace", 81, None], ["xRecv", "accept"], ["cRecv"]]
+        c = {"root": "ord", "price": 80, "qty": 8 * k, "style": rng.randrange(3), "actions": acts}
+        c.update(rand_config(rng))
+        out.append(c)
+    return out
+
+
 def load_corpus():
     out = []
     for p in sorted(glob.glob(os.path.join(HERE, "corpus", "orderobj", "*.json"))):
@@ -305,12 +446,22 @@ def load_corpus():
 
 
 # exhaustive small scope ------------------------------------------------------------------------
+def ob_price(L):
+    return R.num_obs(L.order.price)
+
+
+def ob_qty(L):
+    return R.num_obs(L.order.qty)
+
+
 def bfs_alphabet(L):
     """~14 concrete actions; parameters chosen relative to the state so that every branch is reachable"""
     ex = L.ex
     lv = ex.leaves if ex.known else 0
+    P0, Q0 = getattr(L, "P0", 80), getattr(L, "Q0", 24)
     return [
-        ["cNew"], ["cCancel"], ["cReplace", 89, None], ["cReplace", None, 16], ["cRecv"],
+        ["cNew"], ["cCancel"], ["cReplace", P0 + 1 if ob_price(L) == P0 else P0, None],
+        ["cReplace", None, Q0 - 8 if ob_qty(L) == Q0 else Q0], ["cRecv"],
         ["xRecv", "accept"], ["xRecv", "reject"], ["xRecv", "pend"], ["xDecide", "accept"], ["xDecide", "reject"],
         ["xAck"], ["xFill", 5, 80], ["xFill", 13, 80], ["xFill", lv if lv > 0 else 1, 81], ["xExpire"], ["xSuspend"],
         ["xResume"],
@@ -358,7 +509,7 @@ def correspondence(ctx):
     evals += compare_cases(drv, corpus, dis, stats, "corpus")
 
     # closed system: random interleavings
-    n_closed = ctx.n(5000, 50000)
+    n_closed = ctx.n(3000, 50000)
     closed = [rand_case(ctx.rng) for _ in range(n_closed)]
     evals += compare_cases(drv, closed, dis, stats, "interleavings")
     lens = {}
@@ -368,12 +519,23 @@ def correspondence(ctx):
     samples += [closed[i] for i in (0, len(closed) // 2)]
 
     # open system: arbitrary / malformed reports
-    n_open = ctx.n(2500, 25000)
+    n_open = ctx.n(1500, 25000)
     opn = [rand_open_case(ctx.rng) for _ in range(n_open)]
     evals += compare_cases(drv, opn, dis, stats, "arbitrary-reports")
     for c in opn:
         distinct.add(json.dumps(c["actions"]))
     samples.append(opn[0])
+
+    # structured streams: long request chains (counter crossing 9->10, 99->100), late / duplicated reports, bursts
+    chains = chain_cases(ctx.rng, ctx.tier)
+    evals += compare_cases(drv, chains, dis, stats, "request-chains")
+    late = late_cases(ctx.rng, ctx.tier)
+    evals += compare_cases(drv, late, dis, stats, "late-duplicate-reports")
+    bursts = burst_cases(ctx.rng, ctx.n(30, 300))
+    evals += compare_cases(drv, bursts, dis, stats, "bursts")
+    for c in chains + late + bursts:
+        distinct.add(json.dumps(c["actions"]))
+    big = sum(1 for c in closed if abs(c["price"]) > 10**9 or abs(c["qty"]) > 10**9)
 
     # clord_root against the regex model: exhaustive over a small alphabet, then random
     from asyncfix.protocol.order_single import FIXNewOrderSingle
@@ -407,13 +569,18 @@ def correspondence(ctx):
     evals += len(grid)
 
     # exhaustive small scope: every interleaving of the 17-action alphabet up to the depth, link states hashed
-    bfs_info = bfs(ctx, drv, dis, depth=ctx.n(9, 12), budget_s=420)
+    bfs_info = bfs(ctx, drv, dis, depth=ctx.n(8, 12), budget_s=420)
     evals += bfs_info["transitions"]
-    exhaustive = bfs_info["complete"]
+    # … and once more from a float-typed order of large magnitude (price 25e9, quantity 1e12: one-tick re-prices)
+    bfs_big = bfs(ctx, drv, dis, depth=ctx.n(7, 10), budget_s=200,
+                  case={"root": "DESK7-ORD", "price": BIG_PRICES[0], "qty": BIG_QTYS[1], "cfg": ["EUR/USD", "2", "2", "000000"],
+                        "enums": True})
+    evals += bfs_big["transitions"]
+    exhaustive = bfs_info["complete"] and bfs_big["complete"]
 
     return {
         "evaluations": evals,
-        "distinct_nontrivial": len(distinct) + len(strs) + len(grid) + (bfs_info["states"] if bfs_info else 0),
+        "distinct_nontrivial": len(distinct) + len(strs) + len(grid) + bfs_info["states"] + bfs_big["states"],
         "rule": "one evaluation = one step (action or fed report) compared as full text: outcome (built request with all tags, "
                 "TransactTime canonicalised / return value / exception kind / emitted reports), the order's observable state "
                 "(status, clord_id, orig_clord_id, order_id, price, qty, leaves, cum, avg_px, counter, can_cancel, can_replace, "
@@ -425,7 +592,13 @@ def correspondence(ctx):
         "exhaustive": exhaustive,
         "distribution": {"closed_cases": n_closed, "open_cases": n_open, "corpus_cases": len(corpus),
                          "closed_lengths": dict(sorted(lens.items())), "clord_root_strings": len(strs),
-                         "clord_root_matching": root_match, "render_numbers": len(grid), "bfs": bfs_info},
+                         "clord_root_matching": root_match, "render_numbers": len(grid), "bfs": bfs_info, "bfs_large_magnitude": bfs_big,
+                         "closed_cases_large_magnitude": big,
+                         "request_chains": {"cases": len(chains), "longest_counter": max(sum(1 for a in c["actions"] if a[0] in ("cCancel", "cReplace")) for c in chains) + 1,
+                                            "reject_positions": "2..13 single/double, 98..101" + (", 999..1001" if ctx.tier == "thorough" else "")},
+                         "late_duplicate_cases": len(late), "burst_cases": len(bursts),
+                         "config_dimensions": {"tickers": TICKERS, "sides": SIDES, "ord_types": ORD_TYPES, "accounts": ACCOUNTS,
+                                               "types": "int/float price, qty, replace args; enum members or str for side / ord_type"}},
         "branches": stats["outcomes"],
         "disagreements": dis,
     }
@@ -438,14 +611,15 @@ def ask_chunked(live, lines, chunk=80):
     return out
 
 
-def bfs(ctx, drv, dis, depth, budget_s):
+def bfs(ctx, drv, dis, depth, budget_s, case=None):
     """exhaustive interleavings to `depth` over the 17-action alphabet, hashing link states;
     model side: a live driver conversation with push/load of link states"""
     t0 = time.time()
     # int-typed constructor arguments (10, 3), integral requests (qty 2.0), fractional fills (0.625, 1.625) and
     # a fractional price (11.125): Replaced reports amend OrderQty to a fractional CumQty (matrix C.3.c)
-    case = {"root": "ord", "price": 80, "qty": 24, "ptype": "int", "qtype": "int", "argint": True}
+    case = case or {"root": "ord", "price": 80, "qty": 24, "ptype": "int", "qtype": "int", "argint": True}
     L0 = make_link(case)
+    L0.P0, L0.Q0 = case["price"], case["qty"]   # the replace actions toggle between (P0, Q0) and (P0 + one tick, Q0 - 1)
     seen = {L0.key(): 0}
     level = [(L0, 0, [])]
     live = C.LiveDriver()
@@ -559,6 +733,11 @@ class Monitor:
                 if isinstance(r.get(t), int) and ob[k] != r[t]:
                     self.add("C17-report-not-absorbed:" + k, "after processing an execution report the order's %s is not the reported one" % k,
                              expected=r[t], observed=[ob[k], type(getattr(o, {"cum": "cum_qty", "leaves": "leaves_qty"}.get(k, k))).__name__])
+        # a finished order stays finished, whatever arrives (late / duplicated reports, rejects with any OrdStatus)
+        if before and before["fin"] is True and (ob["status"] != before["status"] or ob["fin"] is not True
+                                                 or ob["can_cancel"] is not False or ob["can_replace"] is not False):
+            self.add("C17-finished-order-revived", "a finished order changed status / stopped being finished / accepts requests again",
+                     expected=before["status"], observed=[ob["status"], ob["fin"], ob["can_cancel"], ob["can_replace"]])
         # can_* true => the builder succeeds
         if a[0] == "cCancel" and before["can_cancel"] is True and res[0] != "built":
             self.add("C17-can-cancel-but-raises:" + str(res[1]), "can_cancel() was true but cancel_req() raised", observed=res)
@@ -717,6 +896,7 @@ def oracle(ctx, disagreements, broken):
             run(inp)
             L, _ = new_link(inp)
             if L is not None:
+                L.P0, L.Q0 = inp["price"], inp["qty"]
                 for a in inp["actions"]:
                     L.step(a, inp.get("style", 0))
                 for a in bfs_alphabet(L):
@@ -725,7 +905,9 @@ def oracle(ctx, disagreements, broken):
                         run(dict(inp, actions=inp["actions"] + [a, b]))
         elif "clord_root" in inp:
             failures.extend(root_oracle([inp["clord_root"]]))
-    n = ctx.n(1500, 15000) * (6 if broken else 1)
+    for c in chain_cases(ctx.rng, "quick") + late_cases(ctx.rng, "quick") + burst_cases(ctx.rng, 10):
+        run(c)
+    n = ctx.n(1200, 15000) * (3 if broken else 1)
     for _ in range(n):
         run(rand_case(ctx.rng, maxlen=30))
     for _ in range(n // 3):
